@@ -1,8 +1,182 @@
-/- Driver handler owned by property C12: `c12 <args…>` requests. -/
+/- Driver handler owned by property C12: `c12 <args…>` requests.
+
+   c12 check <hex of the structured LIR dump (hook verif_hooks::c12::lir_dump)>
+       → `ok items=<n> instrs=<n> sites=<n>`          every item accepted by `Lir.accept`
+       → `reject <hex item name> <instr index|init> <instr text hex>`
+       → `bad-dump <line number>`                      not in the dump grammar (never a default)
+   c12 admits <send 0|1> <sync 0|1> <bound words…>
+       → `yes` / `no`: `Bounds.admits` on a bound list written as words
+         (`send sync static clone partialEq other`)
+-/
 import Driver.Util
+import RotoV.Model.Conc
 
 namespace Driver.C12
+open RotoV.Conc RotoV.Conc.Lir
 
-def handle (_args : List String) : String := "bad-op"
+def parseVar (s : String) : Option Nat :=
+  if s.startsWith "v" then (s.drop 1).toNat? else none
+
+def parseOp (s : String) : Option Operand :=
+  if s == "k" then some .konst
+  else if s.startsWith "kp" then (s.drop 2).toNat?.map .kptr
+  else (parseVar s).map .var
+
+def parseOps (ws : List String) : Option (List Operand) := ws.mapM parseOp
+
+def parseOptVar (s : String) : Option (Option Nat) :=
+  if s == "-" then some none else (parseVar s).map some
+
+def parseOptOp (s : String) : Option (Option Operand) :=
+  if s == "-" then some none else (parseOp s).map some
+
+structure Decls where
+  ptr : List Nat := []     -- variables declared pointer-typed
+  known : List Nat := []   -- all declared variables
+
+def Decls.isPtr (d : Decls) (v : Nat) : Option Bool :=
+  if d.known.contains v then some (d.ptr.contains v) else none
+
+/-- hash of a hex name into a number (names only label regions) -/
+def nameId (s : String) : Nat := s.foldl (fun h c => (h * 131 + c.toNat) % 1000000007) 7
+
+def parseInstr (d : Decls) : List String → Option Instr
+  | ["jump"] => some .nop
+  | ["switch", _] => some .nop
+  | ["ret", _] => some .nop
+  | ["assign", to, val, _ty] => do some (.assign (← parseVar to) (← parseOp val))
+  | ["constaddr", to, name] => do some (.constAddr (← parseVar to) (nameId name))
+  | ["funcaddr", to, _] => do some (.funcAddr (← parseVar to))
+  | ["initstring", to] => do some (.initString (← parseVar to))
+  | "call" :: _name :: to :: ctx :: ret :: args => do
+      let to ← parseOptVar to
+      let isPtr ← match to with
+        | none => some false
+        | some v => d.isPtr v
+      some (.call to isPtr (← parseOptOp ctx) (← parseOptVar ret) (← parseOps args))
+  | "callrt" :: _f :: args => do some (.callRt (← parseOps args))
+  | "arith" :: to :: _ => do
+      let v ← parseVar to
+      some (.arith v (← d.isPtr v))
+  | ["offset", to, src, n] => do some (.offset (← parseVar to) (← parseOp src) (← n.toNat?))
+  | ["initialize", to, _] => do some (.initBytes (← parseVar to))
+  | ["write", to, val] => do some (.write (← parseOp to) (← parseOp val))
+  | ["read", to, src, ty] => do some (.read (← parseVar to) (ty == "Pointer") (← parseOp src))
+  | ["copy", to, src, _] => do some (.copy (← parseOp to) (← parseOp src))
+  | ["clone", to, src] => do some (.clone (← parseOp to) (← parseOp src))
+  | ["drop", v, f] => do some (.drop (← parseOp v) (f == "1"))
+  | _ => none
+
+def isSite : Instr → Bool
+  | .initString _ | .call .. | .callRt _ | .initBytes _ | .write .. | .copy .. | .clone .. => true
+  | .drop _ f => f
+  | _ => false
+
+structure Acc where
+  name : String := ""
+  item : Item := { slots := [], ret := none, ctx := none, params := [], instrs := [] }
+  decls : Decls := {}
+  texts : List String := []   -- instruction texts, reversed
+  inItem : Bool := false
+  items : Nat := 0
+  instrs : Nat := 0
+  sites : Nat := 0
+
+def kv (s : String) (key : String) : Option String :=
+  if s.startsWith (key ++ "=") then some (s.drop (key.length + 1)).toString else none
+
+def finishItem (a : Acc) : Except String Acc :=
+  let it := { a.item with instrs := a.item.instrs.reverse, slots := a.item.slots.reverse,
+                          params := a.item.params.reverse }
+  let cert := infer it
+  if !okInit cert it then .error s!"reject {a.name} init -"
+  else match firstBad cert it.instrs with
+    | some idx =>
+      let txt := (a.texts.reverse.getD idx "?")
+      .error s!"reject {a.name} {idx} {String.join ((txt.toUTF8.toList).map fun b =>
+        let h := "0123456789abcdef".toList
+        String.ofList [h.getD (b.toNat / 16) '?', h.getD (b.toNat % 16) '?'])}"
+    | none =>
+      if accept it then
+        .ok { items := a.items + 1, instrs := a.instrs + it.instrs.length,
+              sites := a.sites + (it.instrs.filter isSite).length }
+      else .error s!"reject {a.name} ? -"
+
+def stepLine (a : Acc) (ln : Nat) (line : String) : Except String Acc :=
+  let bad : Except String Acc := .error s!"bad-dump {ln}"
+  match Driver.words line with
+  | [] => .ok a
+  | ["item", name, _kind, ctx, ret] =>
+    if a.inItem then bad else
+    match (kv ctx "ctx").bind parseOptVar, (kv ret "ret").bind parseOptVar with
+    | some c, some r =>
+      let known := (c.toList ++ r.toList)
+      .ok { a with name := name, inItem := true, texts := [],
+                   item := { slots := [], ret := r, ctx := c, params := [], instrs := [] },
+                   decls := { ptr := known, known := known } }
+    | _, _ => bad
+  | ["param", v, ty] =>
+    match parseVar v with
+    | some v =>
+      let p := ty == "Pointer"
+      .ok { a with item := { a.item with params := (v, p) :: a.item.params },
+                   decls := { ptr := if p then v :: a.decls.ptr else a.decls.ptr, known := v :: a.decls.known } }
+    | none => bad
+  | ["val", v, ty] =>
+    match parseVar v with
+    | some v =>
+      if a.decls.known.contains v then .ok a  -- parameters are listed again among the variables
+      else .ok { a with decls := { ptr := if ty == "Pointer" then v :: a.decls.ptr else a.decls.ptr,
+                                   known := v :: a.decls.known } }
+    | none => bad
+  | ["slot", v, _, _] =>
+    match parseVar v with
+    | some v => .ok { a with item := { a.item with slots := v :: a.item.slots },
+                             decls := { ptr := v :: a.decls.ptr, known := v :: a.decls.known } }
+    | none => bad
+  | ["block"] => if a.inItem then .ok a else bad
+  | "i" :: rest =>
+    if !a.inItem then bad else
+    match parseInstr a.decls rest with
+    | some i => .ok { a with item := { a.item with instrs := i :: a.item.instrs },
+                             texts := " ".intercalate rest :: a.texts }
+    | none => bad
+  | ["end"] => if a.inItem then finishItem a else bad
+  | _ => bad
+
+def checkDump (text : String) : String :=
+  let lines := text.splitOn "\n"
+  let rec go (ls : List String) (ln : Nat) (a : Acc) : String :=
+    match ls with
+    | [] => if a.inItem then s!"bad-dump {ln}" else s!"ok items={a.items} instrs={a.instrs} sites={a.sites}"
+    | l :: rest =>
+      match stepLine a ln l with
+      | .ok a' => go rest (ln + 1) a'
+      | .error e => e
+  go lines 1 {}
+
+def parseBound : String → Option Bounds.Bound
+  | "send" => some .send
+  | "sync" => some .sync
+  | "static" => some .static
+  | "clone" => some .clone
+  | "partialEq" => some .partialEq
+  | "other" => some .other
+  | _ => none
+
+def handle (args : List String) : String :=
+  match args with
+  | ["check", hex] =>
+    match Driver.unhex hex with
+    | some bytes => checkDump (String.ofList (bytes.map fun b => Char.ofNat b.toNat))
+    | none => "bad-op"
+  | "admits" :: send :: sync :: ws =>
+    match ws.mapM parseBound with
+    | some bs =>
+      if (send == "0" || send == "1") && (sync == "0" || sync == "1") then
+        if Bounds.admits bs ⟨send == "1", sync == "1"⟩ then "yes" else "no"
+      else "bad-op"
+    | none => "bad-op"
+  | _ => "bad-op"
 
 end Driver.C12
